@@ -492,6 +492,15 @@ def rule_r6(chk, p, t):
     memo_rule(chk, p, t, "C13.R6", modules=("resonaate.physics.bodies", "resonaate.physics.sensor_utils", "resonaate.physics.constants"), floor=25, what="the force-model support modules (physics.bodies, physics.sensor_utils)")
 
 
+def rule_r7(chk, p, t):
+    # the geopotential is evaluated in the Earth-fixed frame: the rotation the derivative builds must be the same
+    # sidereal rotation as the frame conversions use, over a correct day-of-year (shared instances of C04.R5 / C04.R6)
+    from rules import C04
+
+    C04.rule_r5(chk, p, t, rid="C13.R7")
+    C04.rule_r6(chk, p, t, rid="C13.R8")
+
+
 def run(chk, p, t):
     chk.explanation = (
         "Static decision of structural necessary conditions of C13: (R1) each perturbation is defined under its own "
@@ -503,7 +512,7 @@ def run(chk, p, t):
         "value of any formula, the Chebyshev ephemerides, continuity of Sun / Moon positions."
     )
     chk.assumptions += ["the reference forms of R4 are transcriptions of the equations cited in the module docstrings (Montenbruck & Gill 3.29-3.33, 3.75; Battin's third-body form)"]
-    for fn in (rule_r1, rule_r2, rule_r3, rule_r4, rule_r5, rule_r6):
+    for fn in (rule_r1, rule_r2, rule_r3, rule_r4, rule_r5, rule_r6, rule_r7):
         rid = "C13.R" + fn.__name__[-1]
         if not chk.wants(rid):
             continue
